@@ -379,6 +379,11 @@ func (t *Tracker) Free(p *[]byte) {
 	if p == nil {
 		return
 	}
+	if t.handles[p] == nil && cap(*p) == 0 {
+		// an empty slice that never came from a pool (websocket's safeBufferPointer hands one to Free when a
+		// control frame has no payload): mempool.MemPool ignores it as well, there is nothing to own
+		return
+	}
 	b, ok := t.lookup(p, "Free")
 	if !ok {
 		return
@@ -416,6 +421,24 @@ func (t *Tracker) checkSlice(s []byte, what string) int {
 	}
 	if r.dead || !r.owner.live {
 		t.report(OracleUseAfterFree, fmt.Sprintf("read%d", r.owner.id), "%s: %d bytes read from buffer #%d after it was %s", what, len(s), r.owner.id, r.why)
+		return -r.owner.id
+	}
+	return r.owner.id
+}
+
+// CheckLive classifies memory without reporting anything: id of the live buffer it lies in, -id if that
+// buffer is dead, 0 if it is not pool memory.
+func (t *Tracker) CheckLive(s []byte) int {
+	t.mu.Lock()
+	defer t.mu.Unlock()
+	if cap(s) == 0 || len(s) == 0 {
+		return 0
+	}
+	r := t.find(uintptr(unsafe.Pointer(unsafe.SliceData(s))))
+	if r == nil {
+		return 0
+	}
+	if r.dead || !r.owner.live {
 		return -r.owner.id
 	}
 	return r.owner.id
